@@ -270,4 +270,20 @@ func init() {
 		Technique: "runtime monitoring: differential oracle between two configurations (lazy vs eager) under generated accessor programs",
 		DesignRef: "DESIGN.md §3 C03",
 	})
+	add(Spec{
+		PropSpec: vlib.PropSpec{
+			ID: "C04", Level: "exploration",
+			Rule: "isolation phase: inputs of the lengths 0, 1, 1499, 1500, 1501, 3000, 65535 (always), PRNG lengths around the pool block size (1400..1600) and corpus inputs of every registered layer type; (1) a packet decoded with the default options, and one decoded with Pool, is signed, then the caller's buffer is complemented and its spare capacity written: the packet's signature (all layers, fields, payloads, Data(), String()) must not change; (2) the signatures under NoCopy, Pool and Pool+NoCopy must equal the default one. pool phase (race build, GOMAXPROCS=8): 2..16 goroutines run PRNG histories of NewPacket(Pool) / hold / Dispose (4 000..20 000 ops each, up to 7 packets held per goroutine, lengths incl. 0,1,1499,1500,1501,3000); a mutex-protected registry maps backing-array base address -> owner, updated so that it cannot false-alarm (removed BEFORE Dispose, inserted AFTER NewPacket returned): an insert that finds the address present means two undisposed pooled packets share a block; every holder re-checks signature and Data() right before disposing; the race detector log is parsed. Non-trivial = isolation case with >= 3 layers or length >= 1499; pool history with >= 2 live packets and at least one observed block reuse; distinct by input hash / (round, batch).",
+			Assumptions: []string{"the registry's own mutex adds happens-before edges only between harness operations (insert/remove), not inside NewPacket/Dispose"},
+			Phases: []vlib.Phase{
+				{Name: "isolation", Bin: "vchild", Quick: 16, Thorough: 16},
+				{Name: "pool", Bin: "vchild", Race: true, Quick: 2, Thorough: 4, Procs: 8, Parallel: 2},
+			},
+			Require: []string{"pool_histories", "pool_block_reuses_observed"},
+		},
+		LevelText: "Runtime monitoring: post-decode mutation of the caller's buffer with signature comparison (copy isolation), differential over the NoCopy/Pool configurations, and an aliasing monitor (live-block registry keyed by backing-array address) under a concurrent NewPacket/Dispose stress with the Go race detector.",
+		LevelNote: trusted,
+		Technique: "runtime monitoring: aliasing monitor on live pool blocks + Go race detector + differential signature oracle",
+		DesignRef: "DESIGN.md §3 C04",
+	})
 }
